@@ -80,6 +80,21 @@ CHECKS = {
         assumptions=["the allocator window includes the harness's own Val tree (<= ~100 bytes per input byte), which the budget "
                      "covers", "async readers are driven with the deliver-everything schedule here; schedules are C12's subject"],
     ),
+    "C11": dict(
+        engine="vrt", level="exploration", quick_cap=280, thorough_cap=3600,
+        rule=("Runtime level. The C01 value spaces (a)(b)(c) (shapes to depth 2 + narrow depth 3 [full depth 3 thorough], scalar "
+              "sweeps with payloads on both sides of 4096, field-id neighbourhoods) and (d) back-to-back pairs. Writer: the "
+              "unchecked writer gets a window of exactly the reported size (+64 painted sentinel bytes) over BytesMut, LinkedBytes "
+              "and LinkedBytes zero-copy, all four binary/string APIs; its bytes must equal the CHECKED binary writer's, the size "
+              "must equal the checked length, nothing outside the window may change. Reader: the checked writer's bytes are "
+              "placed so that they end at a PROT_NONE guard page and decoded by the unchecked reader (plain and generated-like call "
+              "sequences): values and consumed bytes must equal the checked reader's; an out-of-bounds read kills the worker and "
+              "is attributed to the case. Skip: the unchecked skipper skips the value as the LAST field of a struct that ends at "
+              "the guard page. Generated-code level (unknown fields skipped/retained): see the generated half when built."),
+        assumptions=["precondition-violating inputs (truncated/corrupt) are outside the property", "out-of-bounds WRITES inside the "
+                     "allocation but beyond the window are detected by the painted sentinel; writes beyond the allocation are UB "
+                     "and not guaranteed to be observed (thorough tier of the generated half adds valgrind)"],
+    ),
     "C12": dict(
         engine="vrt", level="model_checking", quick_cap=280, thorough_cap=3600,
         rule=("Runtime level. Inputs per wire protocol {binary, binary-LE, compact}: reference encodings of all depth<=1 shapes "
@@ -184,8 +199,9 @@ def run_check(pid, tier, seed):
     wdir = os.path.join(WORK, pid)
     nshards = c.get("shards", min(16, vlib.NCPU))
     cap = c["quick_cap"] if tier == "quick" else c["thorough_cap"]
-    results, deaths, run_s = vlib.run_shards(binpath, pid, tier, nshards, c.get("args", []), wdir, seed, cap)
+    results, deaths, run_s, capped = vlib.run_shards(binpath, pid, tier, nshards, c.get("args", []), wdir, seed, cap)
     m = vlib.merge(results)
+    m["caps"] += capped
     # worker deaths are observations
     for d in deaths:
         sig = "%s|worker-death|rc=%s" % (pid, d["rc"])
@@ -260,5 +276,17 @@ def replay(path):
     pid = r["property"]
     c = CHECKS[pid]
     binpath, _ = vlib.build(c["engine"])
+    if "worker-death" in r.get("sig", "") and "index" in r.get("case", {}):
+        # a case that killed the worker: re-run exactly that case index in a child process
+        out = os.path.join(WORK, "replay_only.json")
+        p = subprocess.run([binpath, pid, "--tier", r.get("tier", "quick"), "--shard", "0/1", "--only",
+                            str(r["case"]["index"]), "--out", out] + c.get("args", []), cwd=ROOT, env=vlib.ENV,
+                           stdout=subprocess.PIPE, stderr=subprocess.STDOUT, text=True)
+        print(p.stdout[-800:])
+        if p.returncode not in (0, 1):
+            print("REPRODUCED %s (worker exit status %s on case index %s)" % (r["sig"], p.returncode, r["case"]["index"]))
+            return 1
+        print("NOT-REPRODUCED %s" % r["sig"])
+        return 0
     p = subprocess.run([binpath, "--replay", os.path.abspath(path)], cwd=ROOT, env=vlib.ENV)
     return p.returncode
